@@ -29,6 +29,8 @@ def run(chk, repo, tier):
     chk.not_decided += ['interpolation accuracy, power/PSF preservation, identity at scale 1 (numerical)']
     dtype_closure(chk, repo, 'C17-h')
 
+    from .c03 import mask_cache_rule
+    mask_cache_rule(chk, repo, 'C17-d')
     from .extra_rules import rescale_unitary_rule
     rescale_unitary_rule(chk, repo, 'C17-g')
     f = repo.func('plane.Plane.rescale')
